@@ -43,6 +43,8 @@ class Unit(object):
         self.result = result                 # value spec of the result (for call-by-contract)
         self.callee_units = callee_units or {}   # (class, method) -> Unit : call sites use that unit's contract
         self.defaults = {}
+        self.append_hooks = {}                   # list variable name -> ghost code run per appended element (`appended_`)
+        self.merge_ifs = False                   # join the two arms of an `if` into one state (ite) when both fall through
         self.spec_funcs = {}                     # name -> z3 function usable in contract expressions
         self.ghost_params = []                   # params that are ghost state: bound from the caller's like-named ghost
         self.global_callees = {}                 # bare-name callees (module functions): name -> VFun
@@ -380,7 +382,8 @@ class Executor(EvalMixin, MethodsMixin, ExecMixin):
                 return lambda t: bool(rx.match(t))
             p_ = norm(pattern)
             return lambda t: t == p_
-        mfirst, mlast = matcher(sl[0]), matcher(sl[1])
+        mfirst = matcher(sl[0])
+        mlast = (lambda t: False) if sl[1] == "$END" else matcher(sl[1])
 
         def search(block):
             texts = [self.head_text(s) for s in block]
@@ -388,6 +391,8 @@ class Executor(EvalMixin, MethodsMixin, ExecMixin):
             if starts:
                 i = starts[0]
                 js = [j for j in range(i, len(block)) if mlast(texts[j])]
+                if sl[1] == "$END":
+                    js = [len(block) - 1]
                 if js:
                     return block[i:js[0] + 1]
             for s in block:
